@@ -13,6 +13,7 @@ CHECKS = {
     'C07': ('symtex', 'strict success implies an identical tolerant result, for all strings up to the length bound', 'DESIGN.md §7 C07'),
     'C08': ('symtex', 'alignment oracle (only blank runs before { or [ may disappear) discharged by z3 on every path of every parseable string up to the length bound', 'DESIGN.md §7 C08'),
     'C16': ('symtex', 're-parse of the serialised text gives identical text and shape, for every parseable string up to the length bound', 'DESIGN.md §7 C16'),
+    'C18': ('symtex', 'all operation sequences up to the depth bound on free-standing and owner-attached TexArgs against a Python list of the same objects; group contents symbolic so duplicates are chosen by the solver', 'DESIGN.md §7 C18'),
     'C19': ('symtex', 'real categorize in direct mode (all code points per position) and tokenizer partition/offset assertions for all strings up to the length bound', 'DESIGN.md §7 C19'),
     'C20': ('crosshair', 'each Buffer operation is confirmed over all paths by CrossHair as one inductive step from an arbitrary API-reachable state (int sequences up to the length bound, symbolic cursor and arguments); string- and token-backed buffers run on symtex', 'DESIGN.md §4, §7 C20',
             'CrossHair (symbolic execution of Python + z3) on the real TexSoup.utils.Buffer, inductive-step contracts; symtex for string/token-backed buffers'),
